@@ -4,7 +4,9 @@ C14 — Tie: what the extractor read from core/stores/sqlx/{tx,sqlconn}.go and c
 -/
 import GoZero.Extracted.C14
 import GoZero.C14.TieSem
+import GoZero.C14.Proofs
 namespace GoZero.C14.Tie
+set_option linter.unusedSimpArgs false
 open GoZero.C14 GoZero.C14.TieSem
 open GoZero.Extracted.C14
 
@@ -18,15 +20,16 @@ stuck and lets no panic escape.  Swapping Commit/Rollback, inverting a condition
 moving the body call, turning `%w` into `%s` (or back) all break this theorem. -/
 theorem tie_transactOnConn_sem (f : Faults) (b : Body) :
     outcome (run ⟨f, (runBody b).1, .ret (runBody b).2⟩ transactOnConnBlk {}) =
-      some ((transactOnConn f b).log, (transactOnConn f b).runs, (transactOnConn f b).ret) := by
-  unfold transactOnConn
+      some ((transactOnConn f b).log, (transactOnConn f b).runs, (transactOnConn f b).ret,
+            (transactOnConn f b).escaped) := by
+  unfold transactOnConn transactOnce
   generalize (runBody b).1 = evs
   generalize (runBody b).2 = out
-  obtain ⟨bg, cm, rb⟩ := f
-  cases bg <;> cases cm <;> cases rb <;> cases out <;>
-    first
-    | rfl
-    | simp [transactOnConnBlk, run, outcome, assign, doInit, evalCond, doRet, callBody, fmtErr, argVal, Err.of]
+  obtain ⟨bg, cm, rb, bc, cp, rp⟩ := f
+  cases hg : Faults.givesUp ⟨bg, cm, rb, bc, cp, rp⟩ <;>
+  cases bg <;> cases cp <;> cases rp <;> cases out <;>
+    simp [transactOnConnBlk, run, outcome, assign, doInit, evalCond, doRet, callBody, fmtErr, argVal, Err.of, hg,
+      badPrefix_append] <;> cases cm <;> cases rb <;> simp
 
 /-- the tree carries one of the two analysed versions of `transactOnConn`: the pinned one or the one with
 fixes/C14-commit-on-goexit-or-nil-panic.patch applied -/
@@ -36,30 +39,31 @@ theorem tie_pinned_or_fixed : transactOnConnBlk = pinnedBlk ∨ transactOnConnBl
 `runtime.Goexit()` or through `panic(nil)` under GODEBUG=panicnil=1 is invisible to `recover() != nil`.
 The pinned code then takes the success branch and *commits* (and, for the nil panic, returns the commit's
 result — nil); the patched code rolls back and reports an error.  Witnesses on the pinned term: -/
-theorem witness_pinned_goexit_commits (evs : List Ev) (f : Faults) (hb : f.begin = true) :
-    (run ⟨f, evs, .goexit⟩ pinnedBlk {}).log = .begin true :: (evs ++ [.commit f.commit]) := by
-  obtain ⟨bg, cm, rb⟩ := f
-  cases hb
-  simp [pinnedBlk, run, assign, doInit, evalCond, doRet, callBody]
+theorem witness_pinned_goexit_commits (evs : List Ev) (cm rb : Bool) :
+    (run ⟨{ begin := true, commit := cm, rollback := rb }, evs, .goexit⟩ pinnedBlk {}).log =
+      .begin true :: (evs ++ [.commit cm]) := by
+  simp [pinnedBlk, run, assign, doInit, evalCond, doRet, callBody, Faults.givesUp, maxBeginAttempts, badPrefix]
 
 theorem witness_pinned_nilpanic_commits_returns_nil (evs : List Ev) :
-    outcome (run ⟨⟨true, true, true⟩, evs, .nilPanic⟩ pinnedBlk {}) =
-      some (.begin true :: (evs ++ [.commit true]), 1, none) := by
-  simp [pinnedBlk, run, outcome, assign, doInit, evalCond, doRet, callBody]
+    outcome (run ⟨{ begin := true, commit := true, rollback := true }, evs, .nilPanic⟩ pinnedBlk {}) =
+      some (.begin true :: (evs ++ [.commit true]), 1, none, false) := by
+  simp [pinnedBlk, run, outcome, assign, doInit, evalCond, doRet, callBody, Faults.givesUp, maxBeginAttempts,
+    badPrefix]
 
 /-- … and the patched term rolls both back (and turns the nil panic into an error): -/
-theorem fixed_goexit_rolls_back (evs : List Ev) (f : Faults) (hb : f.begin = true) :
-    (run ⟨f, evs, .goexit⟩ fixedBlk {}).log = .begin true :: (evs ++ [.rollback f.rollback]) := by
-  obtain ⟨bg, cm, rb⟩ := f
-  cases hb
-  cases rb <;> simp [fixedBlk, run, assign, doInit, evalCond, doRet, callBody, fmtErr, argVal]
+theorem fixed_goexit_rolls_back (evs : List Ev) (cm rb : Bool) :
+    (run ⟨{ begin := true, commit := cm, rollback := rb }, evs, .goexit⟩ fixedBlk {}).log =
+      .begin true :: (evs ++ [.rollback rb]) := by
+  cases rb <;>
+    simp [fixedBlk, run, assign, doInit, evalCond, doRet, callBody, fmtErr, argVal, Faults.givesUp,
+      maxBeginAttempts, badPrefix]
 
-theorem fixed_nilpanic_rolled_back_and_reported (evs : List Ev) (f : Faults) (hb : f.begin = true) :
-    ∃ e, outcome (run ⟨f, evs, .nilPanic⟩ fixedBlk {}) =
-      some (.begin true :: (evs ++ [.rollback f.rollback]), 1, some e) := by
-  obtain ⟨bg, cm, rb⟩ := f
-  cases hb
-  cases rb <;> simp [fixedBlk, run, outcome, assign, doInit, evalCond, doRet, callBody, fmtErr, argVal]
+theorem fixed_nilpanic_rolled_back_and_reported (evs : List Ev) (cm rb : Bool) :
+    ∃ e, outcome (run ⟨{ begin := true, commit := cm, rollback := rb }, evs, .nilPanic⟩ fixedBlk {}) =
+      some (.begin true :: (evs ++ [.rollback rb]), 1, some e, false) := by
+  cases rb <;>
+    simp [fixedBlk, run, outcome, assign, doInit, evalCond, doRet, callBody, fmtErr, argVal, Faults.givesUp,
+      maxBeginAttempts, badPrefix]
 
 /-- the decision is made on the *named* result `err` (the deferred closure assigns to it) -/
 theorem tie_namedResult : transactOnConnBlkResults = "err" ∧ transactBlkResults = "err" := by decide
@@ -103,5 +107,53 @@ theorem tie_cachedTransactShape : cachedTransactShape =
 
 /-- nested transactions never reach the driver -/
 theorem tie_txConnShapes : txConnTransactShape = ["return"] ∧ txConnTransactCtxShape = ["return"] := by decide
+
+/-! ### every entry point anchored by the property is wired to `transactOnConn` the way the model assumes
+(callee *and* arguments of each hop; a changed context, begin function, acceptable function, body or callee
+breaks the obligation) -/
+
+/-- `commonSqlConn.Transact` = `TransactCtx` with a background context and the same body -/
+theorem tie_wire_Transact : wireTransact =
+    ["return db.TransactCtx(context.Background(), func(_ context.Context, session Session) error { return fn(session) })",
+     "func:return fn(session)", "func:call fn(session)"] := by decide
+
+/-- `commonSqlConn.TransactCtx`: the span's context goes to the breaker and to `transact`; the request is
+`transact` with the connection's own begin function and the caller's body; the verdict function is
+`db.acceptable`; the breaker's answer is returned (named result, bare return) -/
+theorem tie_wire_TransactCtx : wireTransactCtx =
+    ["call startSpan(ctx, \"Transact\")",
+     "call db.brk.DoWithAcceptableCtx(ctx, func() error { return transact(ctx, db, db.beginTx, fn) }, db.acceptable)",
+     "func:return transact(ctx, db, db.beginTx, fn)", "return "] := by decide
+
+theorem tie_wire_transact : wireTransactFn =
+    ["call db.connProv()", "return err", "return transactOnConn(ctx, conn, b, fn)"] := by decide
+
+/-- `begin` opens the transaction with `db.Begin()` — it is NOT bound to the caller's context: database/sql
+never rolls it back on its own when that context ends (what the model's `cancelAt` relies on) -/
+theorem tie_wire_begin : wireBegin =
+    ["call db.Begin()", "return nil, err", "return txSession{ Tx: tx, }, nil"] := by decide
+
+/-- both constructors install `begin` and a real breaker -/
+theorem tie_constructors :
+    litNewSqlConn = ["connProv: func", "onError: func", "beginTx: begin", "brk: breaker.NewBreaker()"] ∧
+    litNewSqlConnFromDB = ["connProv: func", "onError: func", "beginTx: begin", "brk: breaker.NewBreaker()"] := by
+  decide
+
+/-- `sqlc.CachedConn.Transact[Ctx]` delegate to the wrapped SqlConn's `TransactCtx` with the same context/body -/
+theorem tie_wire_cached :
+    wireCachedTransact = ["func:return fn(session)", "return cc.TransactCtx(context.Background(), fnCtx)"] ∧
+    wireCachedTransactCtx = ["return cc.db.TransactCtx(ctx, fn)"] := by decide
+
+/-- the Session helpers: a SqlConn / CachedConn made from a transaction's session is a `txConn`, whose
+`Transact[Ctx]` returns `errCantNestTx` and nothing else (model: `SK.nest`) -/
+theorem tie_wire_session_helpers :
+    wireWithSession = ["return CachedConn{ db: sqlx.NewSqlConnFromSession(session), cache: cc.cache, }"] ∧
+    wireFromSession = ["return txConn{ Session: session, }"] ∧
+    wireTxConnTransact = ["return errCantNestTx"] ∧ wireTxConnTransactCtx = ["return errCantNestTx"] ∧
+    errCantNestTxInit = "errors.New(\"cannot nest transactions\")" := by decide
+
+/-- a statement of the body made with a context goes to `sql.Tx.ExecContext` with that context (it is
+database/sql that refuses it once the context is done) -/
+theorem tie_wire_txExecCtx : wireTxExecCtx = ["call exec(ctx, t.Tx, q, args...)", "return "] := by decide
 
 end GoZero.C14.Tie
